@@ -33,6 +33,7 @@ func runC07(p *Prog, r *Report) {
 	c07R5(p, r)
 	returnErrorDirtyRule(p, r, "C07.R6")
 	indexStableRule(p, r, "C07.R7")
+	callersRebuiltRule(p, r, "C07.R8")
 }
 
 func c07R1(p *Prog, r *Report) {
